@@ -51,7 +51,10 @@ def ipm_eval(case):
     full = [iso8583.loads(r, encoding=case['codec']) for r in recs]
     parts, why = [], None
     for n in range(0, len(data) + 1, case.get('step', 1)):
-        back, exc = read_all(mciipm.IpmReader(io.BytesIO(data[:n]), encoding=case['codec'], blocked=blocked))
+        # an unblocked file read with the format option given (blocked=False) or, at every other cut, LEFT OUT: the
+        # documented default is the unblocked format
+        kwb = {} if (not blocked and n % 2) else {'blocked': blocked}
+        back, exc = read_all(mciipm.IpmReader(io.BytesIO(data[:n]), encoding=case['codec'], **kwb))
         parts.append(f'{len(back)}:{render_end(exc)}')
         if why is None:
             k = expected_count(recs, blocked, n, len(data))
@@ -91,7 +94,8 @@ def impl_eval(case):
                 except Exception as ex:  # noqa  (raised by the constructor)
                     back, exc = [], ex
         else:
-            back, exc = read_all(mciipm.VbsReader(io.BytesIO(data[:n]), blocked=blocked))
+            kwb = {} if (not blocked and n % 2) else {'blocked': blocked}
+            back, exc = read_all(mciipm.VbsReader(io.BytesIO(data[:n]), **kwb))
         parts.append(f'{len(back)}:{common.sig(b"".join(back))}:{render_end(exc)}')
         if why is None and (n % 3 == 0 or len(data) - n < 12 or n < 12):
             # the list-returning convenience function on the same bytes: the same records, or the library error
@@ -175,5 +179,12 @@ def explore(run, tier):
                 m, _ = iu.gen_message(rng, pkg, codec)
             msgs.append(iu.dict_wire(m))
         cases.append({'b': i % 2, 'codec': codec, 'msgs': msgs})
+    # IPM files of several blocks' length (eight messages of 300 .. 440 bytes), unblocked and blocked: cuts beyond the first
+    # 1012 bytes, with the reader's format option given or (unblocked) left out
+    for codec in ('latin_1', 'cp500'):
+        msgs = [iu.dict_wire({'MTI': '1240', 'DE2': '5' * 16, 'DE3': f'{j:06d}', 'DE72': ('free text %d ' % j) * (22 + 2 * j)})
+                for j in range(8)]
+        for b in (0, 1):
+            cases.append({'b': b, 'codec': codec, 'msgs': msgs})
     run.exhaustive.append('every cut offset 0..len(file) of each generated file')
     run.correspond(__name__, cases, use_model=run.use_model, chunk=2)
